@@ -47,7 +47,7 @@ def run(tier, seed):
     chk = Check("C02", LEVEL, tier, seed)
     chk.assumptions += ["the line classifier never produces the pseudo-kinds LINE_CONTINUATION, LINE_FALLBACK, LINE_BACKTICK (checked on every recorded Parse call)",
                         "trace variant = ASan+UBSan build without NDEBUG (lemon's ParseTrace seam and its diagnostics compiled in)",
-                        "inline token kinds are exercised by the corpus and the spellings only; see C01 for inline sequences"]
+                        "inline token kinds are exercised by the corpus, the spellings and the delimiter soup (every ordered pair of 27 inline delimiters); see C01 for longer inline sequences"]
     rnd = random.Random(seed)
     # 1. the model is derived from the code, then explored completely
     gd = os.path.join(BUILD, "specgen")
@@ -139,6 +139,9 @@ def run(tier, seed):
             "title: T", "author: A\ndate: D", "mmd footer: nofile.txt", "transclude base: .", "latex leader: lead\nlatex begin: begin\nlatex footer: foot", "latex title: LT\nlatex author: LA", "uuid: u-1", "lang: xx", "language: zz"]
     BODY = "# One [one]\n\ntext \"q\" [^n] [#c] [?g] [>a]\n\n## Two\n\n* item\n\n### Three\n\n[^n]: note\n[#c]: cite\n[?g]: gloss\n[>a]: abbr\n"
     edocs += [("raw", (c.replace("\\n", "\n") + "\n\n" + BODY).encode()) for c in CONF]
+    # inline token kinds: every ordered pair of inline delimiters (three shapes) through every writer
+    soup = docs.delimiter_soup()
+    edocs += [("raw", d.encode()) for (k, a, b2, d) in (soup if tier == "thorough" else soup[::3] + soup[1::3][::4])]
     for i in range(0, len(edocs), per):
         s = ["seg\te2e", "ptrace\t0"]
         for j, d in enumerate(edocs[i:i + per]):
